@@ -370,8 +370,48 @@ func run(c *fw.Ctx, idx int) {
 		if existing != nil {
 			sit = existing.Type.String() + "/" + existing.Mode.String()
 		}
-		op := r.Intn(12)
+		op := r.Intn(13)
 		switch {
+		case op == 12: // a record of another pin type over an existing entry (Cluster.Pin RPC, as the adders call it)
+			if existing == nil || follower {
+				continue
+			}
+			var others []api.PinType
+			for _, t := range []api.PinType{api.DataType, api.MetaType, api.ClusterDAGType, api.ShardType} {
+				if t != existing.Type {
+					others = append(others, t)
+				}
+			}
+			nt := others[r.Intn(len(others))]
+			ref := gen.Cid(990+idx%7, 1)
+			np := api.PinCid(target)
+			np.Type = nt
+			np.Name = "other-type"
+			np.ReplicationFactorMin, np.ReplicationFactorMax = [][2]int{{-1, -1}, {1, 2}, {0, 0}}[r.Intn(3)][0], 0
+			np.ReplicationFactorMax = map[int]int{-1: -1, 1: 2, 0: 0}[np.ReplicationFactorMin]
+			switch nt {
+			case api.DataType:
+				np.MaxDepth, np.Mode = -1, api.PinModeRecursive
+			case api.MetaType:
+				np.MaxDepth, np.Mode, np.Reference = 0, api.PinModeDirect, &ref
+			case api.ClusterDAGType:
+				np.MaxDepth, np.Mode, np.Reference = 0, api.PinModeDirect, &ref
+				np.ReplicationFactorMin, np.ReplicationFactorMax = -1, -1
+			case api.ShardType:
+				np.MaxDepth, np.Mode = 1, api.PinModeRecursive
+			}
+			trace = append(trace, fmt.Sprintf("Cluster.Pin RPC: %s record over the %s entry of c%d", nt, existing.Type, cidIndex(universe, target)))
+			c.Journal("%s", trace[len(trace)-1])
+			var out api.Pin
+			perr := e.node.Client.CallContext(ctx, "", "Cluster", "Pin", np, &out)
+			after, _ := list(ctx, e)
+			c.Eval(fmt.Sprintf("pin-other-type/%s-over-%s", nt, existing.Type))
+			if perr == nil {
+				fail(fmt.Sprintf("C04/pin/refusal-expected/other-type/%s-over-%s", nt, existing.Type), "a record of another pin type was accepted over an existing entry", map[string]interface{}{"stored_before": pj(existing), "stored_after": pj(after[tk])})
+			}
+			if d := diffSets(before, after, nil); d != "" {
+				fail("C04/pin/refused-but-pinset-changed/other-type", d, nil)
+			}
 		case op < 5: // Pin / PinPath
 			opts := genOpts(r, lastOpts[tk])
 			viaPath := r.Chance(1, 4)
@@ -716,3 +756,12 @@ func cidx(u []cid.Cid, c cid.Cid) int {
 }
 
 var _ = sort.Strings
+
+func cidIndex(u []cid.Cid, c cid.Cid) int {
+	for i, x := range u {
+		if x.Equals(c) {
+			return i
+		}
+	}
+	return -1
+}
